@@ -60,12 +60,12 @@ func buildSentinels(outer, rootName string) error {
 	}
 	keyHex := []byte("00112233445566778899aabbccddeeff")
 	files := map[string]int64{
-		rootName + "-other/" + c01Marker + "_a.txt":   c01ReservedSizes[0],
-		rootName + "-other/sub/" + c01Marker + "_b":   c01ReservedSizes[1],
-		rootName + "x/" + c01Marker + "_c.bin":        c01ReservedSizes[2],
-		rootName + ".bak/" + c01Marker + "_d":         c01ReservedSizes[3],
-		"unrelated/" + c01Marker + "_e":               c01ReservedSizes[0],
-		c01Marker + "_top.txt":                        c01ReservedSizes[1],
+		rootName + "-other/" + c01Marker + "_a.txt":    c01ReservedSizes[0],
+		rootName + "-other/sub/" + c01Marker + "_b":    c01ReservedSizes[1],
+		rootName + "x/" + c01Marker + "_c.bin":         c01ReservedSizes[2],
+		rootName + ".bak/" + c01Marker + "_d":          c01ReservedSizes[3],
+		"unrelated/" + c01Marker + "_e":                c01ReservedSizes[0],
+		c01Marker + "_top.txt":                         c01ReservedSizes[1],
 		rootName + "-other/PS3ISO/" + c01Marker + "_g": c01ReservedSizes[2],
 		rootName + "-other/GAME/" + c01Marker + "_x":   c01ReservedSizes[3],
 	}
@@ -105,9 +105,9 @@ func c01Tree(t *rapid.T) *hx.Node {
 	tree := hx.GenTree(t, hx.TreeOpts{MaxDepth: 2, MaxEntries: 4, MaxTotal: 10, MaxFile: 20000})
 	// fixed inhabitants the path generator aims at; the iso carries a valid-looking region table so key lookup is attempted
 	iso := make([]byte, 3*2048)
-	iso[3] = 2                           // 2 plain regions
-	iso[8+3], iso[8+7] = 0, 1            // [0,1]
-	iso[16+3], iso[16+7] = 2, 3          // [2,3]  -> sector 1..2 encrypted
+	iso[3] = 2                  // 2 plain regions
+	iso[8+3], iso[8+7] = 0, 1   // [0,1]
+	iso[16+3], iso[16+7] = 2, 3 // [2,3]  -> sector 1..2 encrypted
 	copy(iso[2048:], bytes.Repeat([]byte("inside-iso-data|"), 2048/16*2))
 	tree.Children = append(tree.Children,
 		hx.Dir("PS3ISO", hx.RawFile("g.iso", iso), hx.Dir("deep", hx.RawFile("g.iso", iso))),
